@@ -1,11 +1,12 @@
 (* CmpbPackageProofs.v — package loading for C07 (model/CmpbPackage.v): the loadPackage recursion terminates
    (the resolveBaton chain bounds it), what it returns is an error list from a known stage, front-end errors
-   are positioned inside their file, loader errors (unknown package, import cycle) carry NO position:
-   the refutation of "every error carries a position" with witnesses. *)
+   are positioned inside their file, loader errors (unknown package, import cycle) are positioned at the import
+   statement of the importing file (fix 3f76693; before it they carried NO position and "every error carries
+   a position" was refuted with two witnesses). *)
 From Coq Require Import String List NArith ZArith Bool Arith Lia.
 From J5V.lib Require Import Text Outcome.
 From J5V.model Require Import BclLexer BclParser CmpbFields CmpbDecls CmpbFront CmpbPackage.
-From J5V.proofs Require Import BclPosProofs CmpbDeclsProofs CmpbFrontProofs.
+From J5V.proofs Require Import BclPosProofs BclParserProofs CmpbDeclsProofs CmpbFrontProofs.
 Import ListNotations.
 Local Open Scope bool_scope.
 
@@ -82,33 +83,125 @@ Section Load.
     intro H. injection H as <-. exists x. split; [left; reflexivity|exact E].
   Qed.
 
-  (* every error that comes back is a loader error without position, or the error list of ONE file of the bundle *)
+  (* every error that comes back is a loader error (fresh: without position, as loadPackage itself returns it;
+     located: at an import statement of a file of the bundle), or the error list of ONE file of the bundle *)
   Definition from_file (b : bundle) (es : list perr) : Prop :=
     exists f, In f (all_files b) /\ (fres f = FREarly es \/ fres f = FRLate es).
-  Lemma load_shape : forall fuel b chain name,
+  Definition loader_stage (st : estage) : Prop := st = EPkgCycle \/ st = ENoFiles.
+  Inductive load_res (b : bundle) : list perr -> Prop :=
+  | LRnone : load_res b []
+  | LRfresh st : loader_stage st -> load_res b [mkPE st None None]
+  | LRlocated st f d sp : loader_stage st -> In f (all_files b) -> In (d, sp) (sf_imports f) ->
+      load_res b [mkPE st (Some (sf_id f)) (Some sp)]
+  | LRfile es : from_file b es -> load_res b es.
+
+  (* the errors a file's front end reports all carry a position (true of front_fres by construction) *)
+  Definition fres_positioned : Prop :=
+    forall f es, fres f = FREarly es \/ fres f = FRLate es -> Forall (fun e => pe_pos e <> None) es.
+
+  Lemma map_locate_positioned src es : Forall (fun e => pe_pos e <> None) es -> map (locate src) es = es.
+  Proof.
+    induction 1 as [|e es He _ IH]; cbn [map]; [reflexivity|]. rewrite IH. f_equal.
+    unfold locate. destruct (pe_pos e); [reflexivity|contradiction].
+  Qed.
+  Lemma import_span_In d l sp : import_span d l = Some sp -> In (d, sp) l.
+  Proof.
+    induction l as [|[x s0] r IH]; cbn [import_span]; [discriminate|].
+    destruct (N.eqb d x) eqn:E.
+    - intro H. injection H as <-. apply N.eqb_eq in E. subst. left. reflexivity.
+    - intro H. right. apply IH, H.
+  Qed.
+  Lemma dep_source_In d files fid sp : dep_source d files = Some (fid, sp) ->
+    exists f, In f files /\ sf_id f = fid /\ In (d, sp) (sf_imports f).
+  Proof.
+    induction files as [|f r IH]; cbn [dep_source]; [discriminate|].
+    destruct (import_span d (sf_imports f)) as [s0|] eqn:E.
+    - intro H. injection H as <- <-. exists f. split; [left; reflexivity|]. split; [reflexivity|apply import_span_In, E].
+    - intro H. destruct (IH H) as [g [Hg [Hi Hs]]]. exists g. split; [right; exact Hg|]. split; assumption.
+  Qed.
+
+  Lemma load_shape : fres_positioned -> forall fuel b chain name,
     match load fres fuel b chain name with
-    | Ok es => es = [] \/ es = [mkPE EPkgCycle None None] \/ es = [mkPE ENoFiles None None] \/ from_file b es
+    | Ok es => load_res b es
     | Panic _ => exists f, In f (all_files b) /\ fres f = FRPanic
     | Err _ => False
     | OutOfFuel => True
     end.
   Proof.
-    induction fuel as [|f IH]; intros b chain name; cbn [load]; [exact I|].
-    destruct (mem_pkg name chain); [right; left; reflexivity|].
-    destruct (find_pkg name b) as [files|] eqn:Ef; [|right; right; left; reflexivity].
+    intro Hpos. induction fuel as [|f IH]; intros b chain name; cbn [load]; [exact I|].
+    destruct (mem_pkg name chain); [apply LRfresh; left; reflexivity|].
+    destruct (find_pkg name b) as [files|] eqn:Ef; [|apply LRfresh; right; reflexivity].
     destruct (find_pkg_In _ _ _ Ef) as [_ Hsub].
     destruct (first_early fres files) as [es|] eqn:Ee.
-    { destruct (first_early_shape _ _ Ee) as [x [Hx Ex]]. right; right; right. exists x. split; [apply Hsub; exact Hx|left; exact Ex]. }
+    { destruct (first_early_shape _ _ Ee) as [x [Hx Ex]]. apply LRfile. exists x. split; [apply Hsub; exact Hx|left; exact Ex]. }
     set (deps := filter _ _). clearbody deps.
     induction deps as [|d r IHd].
     - pose proof (first_late_shape files) as Hl.
       destruct (first_late fres files) as [es|c|s|]; try contradiction.
-      + destruct es as [|e es]; [left; reflexivity|].
+      + destruct es as [|e es]; [apply LRnone|].
         destruct Hl as [Hl|[x [Hx Ex]]]; [discriminate|].
-        right; right; right. exists x. split; [apply Hsub; exact Hx|right; exact Ex].
+        apply LRfile. exists x. split; [apply Hsub; exact Hx|right; exact Ex].
       + destruct Hl as [x [Hx Ex]]. exists x. split; [apply Hsub; exact Hx|exact Ex].
     - pose proof (IH b (name :: chain) d) as Hd.
-      destruct (load fres f b (name :: chain) d) as [[|e es]|c|s|]; try exact Hd. exact IHd.
+      destruct (load fres f b (name :: chain) d) as [[|e es]|c|s|]; try exact Hd; [exact IHd|].
+      (* a failing dependency: its error, located at the import unless it has a position *)
+      inversion Hd as [|st Hst|st g d' sp Hst Hg Hi|es' Hff]; subst.
+      + cbn [map]. unfold locate; cbn [pe_pos pe_stage].
+        destruct (dep_source d files) as [[fid sp]|] eqn:Es; [|apply LRfresh; exact Hst].
+        destruct (dep_source_In _ _ _ _ Es) as [g [Hg [<- Hi]]].
+        eapply LRlocated; [exact Hst|apply Hsub; exact Hg|exact Hi].
+      + cbn [map]. unfold locate; cbn [pe_pos]. eapply LRlocated; eassumption.
+      + assert (Hp : Forall (fun e => pe_pos e <> None) (e :: es)).
+        { destruct Hff as [x [_ Hx]]. exact (Hpos x _ Hx). }
+        rewrite (map_locate_positioned _ _ Hp). apply LRfile. exact Hff.
+  Qed.
+
+  (* ---- since fix 3f76693: loading a package OF THE BUNDLE from the top returns positioned errors only.  One
+     unfolding of [load] suffices: whatever a dependency returns is located at the import that names it *)
+  Lemma dedupe_pkgs_In' x l : In x (dedupe_pkgs l) -> In x l.
+  Proof.
+    induction l as [|y r IH]; cbn [dedupe_pkgs]; [auto|].
+    destruct (mem_pkg y r); [intro H; right; apply IH, H|intros [->|H]; [left; reflexivity|right; apply IH, H]].
+  Qed.
+  Lemma import_span_some d l : In d (map fst l) -> import_span d l <> None.
+  Proof.
+    induction l as [|[x s0] r IH]; cbn [map import_span fst]; [intros []|].
+    destruct (N.eqb d x) eqn:E; [discriminate|].
+    intros [H|H]; [subst; rewrite N.eqb_refl in E; discriminate|apply IH, H].
+  Qed.
+  Lemma dep_source_some d files : In d (flat_map sf_deps files) -> dep_source d files <> None.
+  Proof.
+    induction files as [|f r IH]; cbn [flat_map dep_source]; [intros []|].
+    intro H. destruct (import_span d (sf_imports f)) eqn:E; [discriminate|].
+    apply in_app_or in H. destruct H as [H|H]; [|apply IH, H].
+    exfalso. exact (import_span_some d _ H E).
+  Qed.
+  Lemma locate_some_positioned fid sp es : Forall (fun e => pe_pos e <> None) (map (locate (Some (fid, sp))) es).
+  Proof.
+    apply Forall_forall. intros e He. apply in_map_iff in He. destruct He as [e0 [<- _]].
+    unfold locate. destruct (pe_pos e0) eqn:E; [rewrite E; discriminate|cbn; discriminate].
+  Qed.
+
+  Lemma load_positioned : fres_positioned -> forall fuel b chain name es,
+    mem_pkg name chain = false -> find_pkg name b <> None ->
+    load fres fuel b chain name = Ok es -> Forall (fun e => pe_pos e <> None) es.
+  Proof.
+    intros Hpos fuel b chain name es Hm Hf. destruct fuel as [|f]; cbn [load]; [discriminate|].
+    rewrite Hm. destruct (find_pkg name b) as [files|] eqn:Ef; [|contradiction].
+    destruct (first_early fres files) as [es0|] eqn:Ee.
+    { intro H. injection H as <-. destruct (first_early_shape _ _ Ee) as [x [_ Ex]]. apply (Hpos x). left. exact Ex. }
+    assert (Hdeps : forall d, In d (filter (fun d => negb (N.eqb d name)) (dedupe_pkgs (flat_map sf_deps files))) ->
+              dep_source d files <> None).
+    { intros d Hd. apply filter_In in Hd. destruct Hd as [Hd _]. apply dedupe_pkgs_In' in Hd. apply dep_source_some, Hd. }
+    set (deps := filter _ _) in *. clearbody deps.
+    induction deps as [|d r IHd].
+    - pose proof (first_late_shape files) as Hl.
+      destruct (first_late fres files) as [es1|c|s|]; try discriminate.
+      intro H. injection H as <-. destruct Hl as [->|[x [_ Ex]]]; [constructor|]. apply (Hpos x). right. exact Ex.
+    - destruct (load fres f b (name :: chain) d) as [[|e es']|c|s|]; try discriminate.
+      + apply IHd. intros x Hx. apply Hdeps. right. exact Hx.
+      + destruct (dep_source d files) as [[fid sp]|] eqn:Es; [|exfalso; exact (Hdeps d (or_introl eq_refl) Es)].
+        intro H. injection H as <-. exact (locate_some_positioned fid sp (e :: es')).
   Qed.
 End Load.
 
@@ -132,21 +225,50 @@ Proof.
   rewrite Forall_forall in Hall. cbn. split; [reflexivity|]. exists sp. split; [reflexivity|apply Hall; exact Hsp].
 Qed.
 
-(* what holds: every error of a package load is positioned inside a file of the bundle, or it is one of the
-   two loader errors *)
-Theorem load_errors_positioned_partial : forall walk b name es, walker_contract walk ->
-  load_package (front_fres walk) b name = Ok es ->
-  Forall (fun e => perr_inside b e \/ (pe_stage e = ENoFiles /\ pe_pos e = None) \/ (pe_stage e = EPkgCycle /\ pe_pos e = None)) es.
+Lemma front_fres_is_positioned walk : fres_positioned (front_fres walk).
 Proof.
-  intros walk b name es Hc H. unfold load_package in H.
-  pose proof (load_shape (front_fres walk) (S (length b)) b [] name) as Hs. rewrite H in Hs.
-  destruct Hs as [->|[->|[->|[f [Hf Hfr]]]]].
+  intros f es H. unfold front_fres in H.
+  destruct (front_end walk true (sf_input f)) as [out|c|s|]; try (destruct H; discriminate).
+  destruct out as [st sps|v lf]; [|destruct H; discriminate].
+  assert (Hes : es = map (fun sp => mkPE (EFront st) (Some (sf_id f)) (Some sp)) sps).
+  { destruct st; destruct H as [H|H]; try discriminate; injection H as <-; reflexivity. }
+  subst es. apply Forall_forall. intros e He. apply in_map_iff in He. destruct He as [sp [<- _]]. cbn. discriminate.
+Qed.
+
+(* the hypothesis on the bundle: the span recorded for an import statement (SourceFile.source_locations, child
+   "imports") joins two end points of nodes of the syntax tree of the file's text — the walker's position contract
+   (walk_out_ok: forallb (span_from body) (spans t)) for that entry of the location tree.  The CPkgLoad
+   correspondence evaluates it on the real location tree of every generated file *)
+Definition import_located (f : sfile) (sp : span) : Prop :=
+  exists p body, parse_file (sf_input f) true = Ok p /\ ptree p = Some body /\ span_from body sp = true.
+Definition imports_located (b : bundle) : Prop :=
+  forall f, In f (all_files b) -> forall d sp, In (d, sp) (sf_imports f) -> import_located f sp.
+
+Lemma import_located_inside f sp : import_located f sp -> span_inside (utf8_decode (sf_input f)) sp.
+Proof.
+  intros [p [body [Hp [Hb Hs]]]]. unfold parse_file in Hp.
+  destruct (parse_runes_positions true _ p Hp) as [_ Hn].
+  eapply span_from_inside; [exact (Hn body Hb)|exact Hs].
+Qed.
+
+(* every error of loading a package of the bundle is positioned inside a file of the bundle: front-end errors inside
+   their own file, the two loader errors at the import statement that names the failing package *)
+Theorem load_errors_positioned : forall walk b name es, walker_contract walk -> imports_located b ->
+  find_pkg name b <> None ->
+  load_package (front_fres walk) b name = Ok es -> Forall (perr_inside b) es.
+Proof.
+  intros walk b name es Hc Hil Hf H. unfold load_package in H.
+  pose proof (load_shape (front_fres walk) (front_fres_is_positioned walk) (S (length b)) b [] name) as Hs. rewrite H in Hs.
+  pose proof (load_positioned (front_fres walk) (front_fres_is_positioned walk) _ b [] name es eq_refl Hf H) as Hp.
+  inversion Hs as [|st Hst|st f d sp Hst Hin Hi|es' Hff]; subst.
   - constructor.
-  - constructor; [right; right; split; reflexivity|constructor].
-  - constructor; [right; left; split; reflexivity|constructor].
-  - destruct (front_fres_positioned walk f es Hc Hfr) as [_ Hall].
-    eapply Forall_impl; [|exact Hall]. intros e [H1 [sp [H2 H3]]]. left. exists f, sp.
-    split; [exact Hf|]. split; [exact H1|]. split; [exact H2|exact H3].
+  - inversion Hp as [|e l He _]. cbn in He. contradiction.
+  - constructor; [|constructor]. exists f, sp. split; [exact Hin|]. split; [reflexivity|]. split; [reflexivity|].
+    apply import_located_inside. exact (Hil f Hin d sp Hi).
+  - destruct Hff as [f [Hin Hfr]].
+    destruct (front_fres_positioned walk f es Hc Hfr) as [_ Hall].
+    eapply Forall_impl; [|exact Hall]. intros e [H1 [sp [H2 H3]]]. exists f, sp.
+    split; [exact Hin|]. split; [exact H1|]. split; [exact H2|exact H3].
 Qed.
 
 (* package-level "never panics or hangs": the load returns for every bundle; it panics only when a file's
@@ -159,54 +281,89 @@ Theorem load_package_total : forall walk b name,
   end.
 Proof.
   intros walk b name. pose proof (load_package_terminates (front_fres walk) b name) as Ht.
-  pose proof (load_shape (front_fres walk) (S (length b)) b [] name) as Hs. unfold load_package in *.
+  pose proof (load_shape (front_fres walk) (front_fres_is_positioned walk) (S (length b)) b [] name) as Hs. unfold load_package in *.
   destruct (load (front_fres walk) (S (length b)) b [] name) as [es|c|s|]; try exact I; try contradiction.
   destruct Hs as [f [Hf Hp]]. exists f. split; [exact Hf|].
   intros out Ho. unfold front_fres in Hp. rewrite Ho in Hp. destruct out as [[] es|v lf]; discriminate.
 Qed.
 
-(* ---- the full statement and its refutation *)
-(* "errors carry a position inside the offending file", for a package *)
+(* ---- the full statement (proved since fix 3f76693) *)
+(* "errors carry a position inside the offending file", for a package of the bundle *)
 Definition package_errors_positioned_statement : Prop :=
   forall walk, walker_returns walk -> walker_contract walk ->
-  forall b name es, load_package (front_fres walk) b name = Ok es -> Forall (perr_inside b) es.
+  forall b name es, imports_located b -> find_pkg name b <> None ->
+  load_package (front_fres walk) b name = Ok es -> Forall (perr_inside b) es.
+Theorem package_errors_positioned : package_errors_positioned_statement.
+Proof. intros walk _ Hc b name es Hil Hf H. exact (load_errors_positioned walk b name es Hc Hil Hf H). Qed.
 
-(* "a {\n}\n" *)
+(* "a {\n}\n" : the import spans of the witnesses are the header of that block, (0,0)-(0,2) *)
 Definition fine_text : list N := [97;32;123;10;125;10]%N.
+Definition fine_span : span := ((0, 0), (0, 2))%Z.
 (* package 1 imports package 2, which no local package or dependency provides *)
-Definition unknown_pkg_bundle : bundle := [(1%N, [mkSF 10%N fine_text [2%N]])].
+Definition unknown_pkg_bundle : bundle := [(1%N, [mkSF 10%N fine_text [(2%N, fine_span)]])].
 (* packages 1 and 2 import each other *)
-Definition cycle_bundle : bundle := [(1%N, [mkSF 10%N fine_text [2%N]]); (2%N, [mkSF 20%N fine_text [1%N]])].
+Definition cycle_bundle : bundle :=
+  [(1%N, [mkSF 10%N fine_text [(2%N, fine_span)]]); (2%N, [mkSF 20%N fine_text [(1%N, fine_span)]])].
 
-Lemma unknown_package_unpositioned :
-  load_package (front_fres demo_walk) unknown_pkg_bundle 1%N = Ok [mkPE ENoFiles None None].
+(* the two former refutation witnesses: the loader errors now sit at the import statement — of the importing file
+   for an unknown package, of the file that closes the cycle for an import cycle *)
+Lemma unknown_package_positioned :
+  load_package (front_fres demo_walk) unknown_pkg_bundle 1%N = Ok [mkPE ENoFiles (Some 10%N) (Some fine_span)].
 Proof. vm_compute. reflexivity. Qed.
-Lemma package_cycle_unpositioned :
-  load_package (front_fres demo_walk) cycle_bundle 1%N = Ok [mkPE EPkgCycle None None].
+Lemma package_cycle_positioned :
+  load_package (front_fres demo_walk) cycle_bundle 1%N = Ok [mkPE EPkgCycle (Some 20%N) (Some fine_span)].
 Proof. vm_compute. reflexivity. Qed.
-
-Theorem package_errors_positioned_refuted : ~ package_errors_positioned_statement.
+Lemma fine_span_located id imps : import_located (mkSF id fine_text imps) fine_span.
 Proof.
-  intro H. pose proof (H demo_walk demo_walk_returns demo_walk_contract unknown_pkg_bundle 1%N _ unknown_package_unpositioned) as Hf.
-  inversion Hf as [|e l He _]. destruct He as [f [sp [_ [_ [Hp _]]]]]. discriminate.
+  unfold import_located. cbn [sf_input].
+  destruct (parse_file fine_text true) as [p|c|s|] eqn:Hp; try (vm_compute in Hp; discriminate).
+  destruct (ptree p) as [body|] eqn:Hb.
+  - exists p, body. split; [reflexivity|]. split; [exact Hb|].
+    revert Hb. vm_compute in Hp. injection Hp as <-. intro Hb. vm_compute in Hb. injection Hb as <-. vm_compute. reflexivity.
+  - exfalso. vm_compute in Hp. injection Hp as <-. vm_compute in Hb. discriminate.
 Qed.
+Lemma witnesses_located : imports_located unknown_pkg_bundle /\ imports_located cycle_bundle.
+Proof.
+  split; intros f Hf d sp Hi; cbn in Hf.
+  - destruct Hf as [<-|[]]. cbn in Hi. destruct Hi as [Hi|[]]. injection Hi as _ <-. apply fine_span_located.
+  - destruct Hf as [<-|[<-|[]]]; cbn in Hi; destruct Hi as [Hi|[]]; injection Hi as _ <-; apply fine_span_located.
+Qed.
+(* the unpositioned form survives only where no file of the bundle is involved: compiling a package NOBODY provides *)
+Lemma absent_package_unpositioned :
+  load_package (front_fres demo_walk) unknown_pkg_bundle 2%N = Ok [mkPE ENoFiles None None].
+Proof. vm_compute. reflexivity. Qed.
 
 (* ---- the import-order loader is one of the outcomes the order-free description allows *)
-Definition kind_of (es : list perr) : N :=
+Definition kind_of (es : list perr) : lkind :=
   match es with
-  | [] => 0
-  | e :: _ => match pe_stage e with EPkgCycle => 1 | ENoFiles => 2 | _ => 3 end
-  end%N.
+  | [] => (0%N, None)
+  | e :: _ => (match pe_stage e with EPkgCycle => 1 | ENoFiles => 2 | _ => 3 end%N,
+               match pe_pos e with
+               | Some sp => Some (match pe_file e with Some f => f | None => 0%N end, sp)
+               | None => None
+               end)
+  end.
+
+Lemma locate_kind_fst src k : fst (locate_kind src k) = fst k.
+Proof. unfold locate_kind. destruct (snd k); reflexivity. Qed.
+Lemma kind_of_locate src e l l' : kind_of (locate src e :: l) = locate_kind src (kind_of (e :: l')).
+Proof.
+  cbn [kind_of]. unfold locate, locate_kind. cbn [snd fst].
+  destruct (pe_pos e) as [sp|] eqn:Ep.
+  - rewrite Ep. reflexivity.
+  - destruct src as [[fid sp]|]; cbn [pe_stage pe_pos pe_file]; [reflexivity|rewrite Ep; reflexivity].
+Qed.
 
 Lemma load_kinds_shape : forall fuel b chain name,
-  load_kinds fuel b chain name = [0%N] \/ Forall (fun k => N.eqb k 0 = false) (load_kinds fuel b chain name).
+  load_kinds fuel b chain name = [(0%N, None)] \/ Forall (fun k => N.eqb (fst k) 0 = false) (load_kinds fuel b chain name).
 Proof.
   induction fuel as [|f IH]; intros b chain name; cbn [load_kinds]; [right; constructor|].
   destruct (mem_pkg name chain); [right; repeat constructor|].
   destruct (find_pkg name b) as [files|]; [|right; repeat constructor].
   set (ks := flat_map _ _).
-  assert (Hks : Forall (fun k => N.eqb k 0 = false) ks).
+  assert (Hks : Forall (fun k => N.eqb (fst k) 0 = false) ks).
   { apply Forall_forall. intros k Hk. unfold ks in Hk. apply in_flat_map in Hk. destruct Hk as [d [_ Hk]].
+    apply in_map_iff in Hk. destruct Hk as [k0 [<- Hk]]. rewrite locate_kind_fst.
     apply filter_In in Hk. destruct Hk as [_ Hk]. apply negb_true_iff in Hk. exact Hk. }
   destruct ks; [left; reflexivity|right; exact Hks].
 Qed.
@@ -231,12 +388,15 @@ Proof.
     + (* this import loads: its outcome set is {0}, it contributes nothing *)
       specialize (Hd [] eq_refl). cbn [kind_of] in Hd.
       destruct Hsh as [Hsh|Hsh]; [|rewrite Forall_forall in Hsh; specialize (Hsh _ Hd); discriminate].
-      rewrite Hsh. cbn [filter N.eqb negb app]. exact IHd.
+      rewrite Hsh. cbn [filter fst N.eqb negb map app]. exact IHd.
     + intro H. injection H as <-. specialize (Hd (e :: es') eq_refl).
-      assert (Hnz : N.eqb (kind_of (e :: es')) 0 = false) by (cbn; destruct (pe_stage e); reflexivity).
-      assert (Hin : In (kind_of (e :: es')) (filter (fun k => negb (N.eqb k 0)) (load_kinds f b (name :: chain) d))).
-      { apply filter_In. split; [exact Hd|]. rewrite Hnz. reflexivity. }
-      destruct (filter (fun k => negb (N.eqb k 0)) (load_kinds f b (name :: chain) d) ++ _) eqn:Ea.
+      cbn [map]. rewrite (kind_of_locate _ e _ es').
+      assert (Hnz : N.eqb (fst (kind_of (e :: es'))) 0 = false) by (cbn; destruct (pe_stage e); reflexivity).
+      set (src := dep_source d files).
+      assert (Hin : In (locate_kind src (kind_of (e :: es')))
+                (map (locate_kind src) (filter (fun k => negb (N.eqb (fst k) 0)) (load_kinds f b (name :: chain) d)))).
+      { apply in_map. apply filter_In. split; [exact Hd|]. rewrite Hnz. reflexivity. }
+      destruct (map (locate_kind src) (filter (fun k => negb (N.eqb (fst k) 0)) (load_kinds f b (name :: chain) d)) ++ _) eqn:Ea.
       * apply app_eq_nil in Ea. destruct Ea as [Ea _]. rewrite Ea in Hin. contradiction.
       * rewrite <- Ea. apply in_or_app. left. exact Hin.
 Qed.
@@ -247,7 +407,7 @@ Qed.
    errors are exactly "an import names no package" and "the imports form a cycle". *)
 Definition acyclic_closed (b : bundle) (rank : pkgid -> nat) : Prop :=
   forall n files, find_pkg n b = Some files ->
-    forall d, In d (flat_map sf_imports files) -> d <> n -> find_pkg d b <> None /\ (rank d < rank n)%nat.
+    forall d, In d (flat_map sf_deps files) -> d <> n -> find_pkg d b <> None /\ (rank d < rank n)%nat.
 
 Lemma dedupe_pkgs_In x l : In x (dedupe_pkgs l) -> In x l.
 Proof.
@@ -290,7 +450,7 @@ Section LoadSucceeds.
       assert (Hinc' : incl (name :: chain) (map fst b)).
       { intros x [<-|Hx]; [exact Hin|apply Hinc; exact Hx]. }
       assert (Hlen' : (length b < f + length (name :: chain))%nat) by (cbn; lia).
-      assert (Hdeps : forall d, In d (filter (fun d => negb (N.eqb d name)) (dedupe_pkgs (flat_map sf_imports files))) ->
+      assert (Hdeps : forall d, In d (filter (fun d => negb (N.eqb d name)) (dedupe_pkgs (flat_map sf_deps files))) ->
                 find_pkg d b <> None /\ (rank d < rank name)%nat).
       { intros d Hd. apply filter_In in Hd. destruct Hd as [Hd Hne]. apply dedupe_pkgs_In in Hd.
         apply negb_true_iff, N.eqb_neq in Hne. exact (Hac name files Ef d Hd Hne). }
@@ -322,7 +482,8 @@ Qed.
 
 (* non-vacuity: package 1 imports package 2 (and names itself, which resolveDependencies deletes); every file converts
    under the demo walker; the hypotheses hold and the package loads *)
-Definition ok_bundle : bundle := [(1%N, [mkSF 10%N fine_text [2%N; 1%N]; mkSF 11%N fine_text []]); (2%N, [mkSF 20%N fine_text []])].
+Definition ok_bundle : bundle :=
+  [(1%N, [mkSF 10%N fine_text [(2%N, fine_span); (1%N, fine_span)]; mkSF 11%N fine_text []]); (2%N, [mkSF 20%N fine_text []])].
 Lemma ok_bundle_acyclic : acyclic_closed ok_bundle (fun n => if N.eqb n 1 then 1%nat else 0%nat).
 Proof.
   intros n files Hf d Hd Hne. cbn [ok_bundle find_pkg] in Hf.
